@@ -775,7 +775,9 @@ pub fn generate(p: &mut Prng, cfg: &GenCfg) -> Project {
                 ret,
                 body,
                 bound: None,
-                noise: 0,
+                // now and then a long function: dozens of sequential lets nest dozens of levels
+                // deep in the Core IR, which has to survive the artifact boundary like any other
+                noise: if p.chance(1, 16) { 30 + p.below(170) as u32 } else { 0 },
             });
         }
         cur.fns = fns;
